@@ -9,6 +9,8 @@ operations (opcode, key components, value kind, targets are solver-chosen finite
   nest   what DirectoryResourcePopulator does on a name conflict: `M.handles.maps.insert(0, {})` on the
          map holding a handle, then assign a fresh handle to the same path (the old one is shadowed)
   clear  `M.clear()` on the root or on any reachable sub-map
+  (same=True, default) a set may also assign the very object that is stored under exactly this name right now
+         (same object, same place: stored at one place only)
   (reinsert=True) a set may also store again an object that was stored earlier in the history and is stored
          nowhere now (displaced by a later assignment or dropped by clear); its whole subtree comes back with it
 
@@ -41,6 +43,7 @@ class Node:
     def __init__(self, obj=None):
         self.obj = obj
         self.kids = {}          # name -> Node | TokHandle
+        self.shadow = set()     # names under which a lower layer of `handles` holds a shadowed handle
 
 
 MISSING = object()
@@ -85,6 +88,7 @@ def make_value(sp, kind, cx):
     n = Node(r)
     n.kids['a'] = h2
     n.kids['b'] = h0
+    n.shadow.add('a')
     return r, n, 'layered map{a: %r over %r, b: %r (lower layer)}' % (h2, h1, h0)
 
 
@@ -95,8 +99,11 @@ def model_set(root, comps, mval):
         if not isinstance(nxt, Node):
             nxt = Node(None)            # implicit intermediate map (replaces a handle if there was one)
             cur.kids[c] = nxt
+            cur.shadow.discard(c)       # a map over a name removes the handles of every layer
         cur = nxt
     cur.kids[comps[-1]] = mval
+    if isinstance(mval, Node):
+        cur.shadow.discard(comps[-1])
 
 
 def model_lookup(root, comps):
@@ -231,6 +238,11 @@ def oracle(sp, m, root, alphabet, depth, clauses, when):
                      '%s: node at %r has key %r' % (when, show(comps), node.key))
 
 
+def old_holder_shadow(root, comps):
+    holder = model_lookup(root, comps[:-1])
+    return isinstance(holder, Node) and comps[-1] in holder.shadow
+
+
 def stored_in(holder, obj):
     """is obj stored directly in map `holder` (its `maps` or any layer of its `handles`)?"""
     if not isinstance(holder, ResourceMap):
@@ -240,7 +252,7 @@ def stored_in(holder, obj):
 
 
 def h_tree(sp, L=2, alphabet=('a', 'b', ''), depth=3, values=(0, 1, 2, 3), ops=('set', 'clear', 'nest'),
-           via=False, clauses=ALL_CLAUSES, reinsert=False):
+           via=False, clauses=ALL_CLAUSES, reinsert=False, same=True):
     alphabet = tuple(alphabet)
     clauses = tuple(clauses)
     ops = list(ops)
@@ -261,6 +273,8 @@ def h_tree(sp, L=2, alphabet=('a', 'b', ''), depth=3, values=(0, 1, 2, 3), ops=(
                 options = [('new', k) for k in values]
                 if reinsert:
                     options += [('re', i) for i in range(len(pool))]
+                if same and model_lookup(root, comps) is not MISSING:
+                    options.append(('same', None))      # the object stored under exactly this name right now
                 how, kind = sp.pick(options, 'val%d' % step)
                 j = 0
                 if via and len(comps) > 1:
@@ -270,16 +284,34 @@ def h_tree(sp, L=2, alphabet=('a', 'b', ''), depth=3, values=(0, 1, 2, 3), ops=(
                     j = sp.pick(splits, 'via%d' % step)
                 if how == 'new':
                     value, mval, desc = make_value(sp, kind, cx)
+                elif how == 'same':
+                    mval = model_lookup(root, comps)
+                    if isinstance(mval, TokHandle):
+                        value = mval
+                    else:
+                        value = mval.obj if mval.obj is not None else real_walk(m, comps)
+                        if not isinstance(value, ResourceMap):
+                            sp.assume(False)    # lookup already wrong; reported by the oracle earlier
+                        mval.obj = value
+                    desc = 'the very object already stored there (%s)' % (
+                        repr(mval) if isinstance(mval, TokHandle) else 'map with names %r' % sorted(mval.kids))
+                    sp.cover('reassign-same-object')
+                    sp.cover('reassign-same-map' if isinstance(mval, Node) else 'reassign-same-handle')
+                    if len(comps) > 1:
+                        sp.cover('reassign-same-object-nested')
                 else:
-                    mval = pool.pop(kind)
+                    ent = pool.pop(kind)
+                    mval = ent['mv']
                     value = mval if isinstance(mval, TokHandle) else mval.obj
                     kind = None
                     desc = 'the displaced %s (last stored under name %r)' % (
                         repr(mval) if isinstance(mval, TokHandle) else 'map with names %r' % sorted(mval.kids),
-                        value.key)
+                        ent['name'])
                     sp.cover('reinsert')
-                    former = real_walk(m, comps[:-1])
-                    if former is not MISSING and value.parent is former and value.key != comps[-1]:
+                    # tags from the model only: the shape that matters is "same container, other name, not
+                    # detached by clear() in between"
+                    holder_now = model_lookup(root, comps[:-1])
+                    if holder_now is ent['holder'] and ent['name'] != comps[-1] and ent['via'] == 'displaced':
                         sp.cover('reinsert-same-map-other-name')
                         if isinstance(mval, Node):
                             sp.cover('reinsert-map-same-map-other-name')
@@ -289,16 +321,20 @@ def h_tree(sp, L=2, alphabet=('a', 'b', ''), depth=3, values=(0, 1, 2, 3), ops=(
                 for i in range(1, len(comps)):
                     v = model_lookup(root, comps[:i])
                     if isinstance(v, TokHandle):
-                        displaced.append((v, v, real_walk(m, comps[:i - 1])))
-                if old is not MISSING:
+                        displaced.append((v, v, real_walk(m, comps[:i - 1]),
+                                          model_lookup(root, comps[:i - 1]), comps[i - 1]))
+                if old is not MISSING and how != 'same':
                     real_old = old if isinstance(old, TokHandle) else (old.obj or real_walk(m, comps))
-                    displaced.append((old, real_old, real_walk(m, comps[:-1])))
+                    displaced.append((old, real_old, real_walk(m, comps[:-1]),
+                                      model_lookup(root, comps[:-1]), comps[-1]))
                 # does the assignment or an intermediate replace a handle / a map of the other kind?
                 for i in range(1, len(comps)):
                     if isinstance(model_lookup(root, comps[:i]), TokHandle):
                         sp.cover('intermediate-over-handle')
                 if isinstance(old, TokHandle) and isinstance(mval, Node):
                     sp.cover('map-over-handle')
+                    if old_holder_shadow(root, comps):
+                        sp.cover('map-over-layered-handle')
                 if isinstance(old, Node) and isinstance(mval, TokHandle):
                     sp.cover('handle-over-map')
                     if old.kids:
@@ -313,13 +349,13 @@ def h_tree(sp, L=2, alphabet=('a', 'b', ''), depth=3, values=(0, 1, 2, 3), ops=(
                                           show(comps[j:]), desc))
                 target[show(comps[j:])] = value
                 model_set(root, comps, mval)
-                for mv, real_obj, holder in displaced:
+                for mv, real_obj, holder, holder_node, name in displaced:
                     # eligible for re-insertion only if really stored nowhere (a handle that was visible from a
                     # lower layer stays stored there when a new handle shadows it)
                     if reinsert and isinstance(real_obj, (ResourceMap, Handle)) and not stored_in(holder, real_obj):
                         if isinstance(mv, Node):
                             mv.obj = real_obj
-                        pool.append(mv)
+                        pool.append(dict(mv=mv, holder=holder_node, name=name, via='displaced'))
                 if kind == 3:
                     sp.cover('layered-value')
             elif op == 'nest':
@@ -336,6 +372,7 @@ def h_tree(sp, L=2, alphabet=('a', 'b', ''), depth=3, values=(0, 1, 2, 3), ops=(
                 holder.handles.maps.insert(0, {})
                 m[show(comps)] = new
                 model_set(root, comps, new)
+                model_lookup(root, comps[:-1]).shadow.add(comps[-1])
                 sp.cover('nest')
             else:
                 mp = [((), root)] + model_paths(root, kinds=(Node,))
@@ -352,9 +389,9 @@ def h_tree(sp, L=2, alphabet=('a', 'b', ''), depth=3, values=(0, 1, 2, 3), ops=(
                     for k, kid in sorted(layer.items()):
                         shadowed = k in seen_names
                         kids.append((k, kid, 'shadowed handle (layer %d)' % li if shadowed else 'handle'))
-                        if shadowed:
-                            sp.cover('clear-with-shadowed-handle')
                     seen_names.update(layer)
+                if node.shadow:                 # from the model, so that the tag does not depend on the code
+                    sp.cover('clear-with-shadowed-handle')
                 sp.note('(map %r).clear()' % show(comps))
                 target.clear()
                 if node.kids:
@@ -371,8 +408,9 @@ def h_tree(sp, L=2, alphabet=('a', 'b', ''), depth=3, values=(0, 1, 2, 3), ops=(
                         if real_obj is not None:
                             if isinstance(mv, Node):
                                 mv.obj = real_obj
-                            pool.append(mv)
+                            pool.append(dict(mv=mv, holder=node, name=k, via='cleared'))
                 node.kids = {}
+                node.shadow = set()
                 if 'clear' in clauses:
                     sp.check(len(target.maps) == 0 and len(target.handles) == 0, 'clear-leaves-nothing',
                              '%s: after clear() of map %r: maps has %d names, handles has %d names (%s)' % (
@@ -397,9 +435,11 @@ def h_tree(sp, L=2, alphabet=('a', 'b', ''), depth=3, values=(0, 1, 2, 3), ops=(
 
 _COVERS = ['handle-read', 'deep-handle-read', 'implicit-map', 'intermediate-over-handle', 'map-over-handle',
            'handle-over-map', 'subtree-replaced', 'layered-value', 'nest', 'clear-nonempty', 'clear-submap',
-           'set-via-submap', 'clear-with-shadowed-handle', 'reinsert', 'reinsert-same-map-other-name']
+           'set-via-submap', 'clear-with-shadowed-handle', 'reinsert', 'reinsert-same-map-other-name', 'reassign-same-object',
+           'map-over-layered-handle']
 
-_REQ = ['handle-read', 'deep-handle-read', 'map-over-handle', 'handle-over-map', 'layered-value']
+_REQ = ['handle-read', 'deep-handle-read', 'map-over-handle', 'handle-over-map', 'layered-value',
+        'reassign-same-handle', 'reassign-same-map', 'reassign-same-object-nested']
 
 HARNESSES = {
     # full oracle, sharded over the process pool
@@ -407,7 +447,8 @@ HARNESSES = {
                  required=_REQ + ['clear-nonempty', 'implicit-map', 'nest', 'clear-with-shadowed-handle']),
     # the same function on a small universe with one clause family switched on, explored in-process before
     # the pool starts: each family reports its own counterexample even when another family fails too
-    'focus': dict(fn=h_tree, nontrivial=_COVERS, required=['layered-value', 'handle-over-map', 'map-over-handle'],
+    'focus': dict(fn=h_tree, nontrivial=_COVERS, required=['layered-value', 'handle-over-map', 'map-over-handle', 'reassign-same-handle',
+                            'reassign-same-map'],
                   split=False),
     # 'tree' with via=True (assignment through a reachable sub-map); only the vacuity requirement differs
     'via': dict(fn=h_tree, nontrivial=_COVERS,
@@ -419,6 +460,7 @@ HARNESSES = {
 }
 
 _REINS_REQ = ['handle-read', 'deep-handle-read', 'map-over-handle', 'handle-over-map', 'implicit-map', 'reinsert',
+              'reassign-same-handle', 'reassign-same-map',
               'reinsert-same-map-other-name', 'reinsert-map-same-map-other-name', 'clear-nonempty']
 
 _SMALL = dict(L=2, alphabet=['a', 'b'], depth=2)
@@ -470,7 +512,8 @@ BOUNDS = {
                 "names a,b depth 2, values {handle, pre-populated map, displaced}, set with via: 4 ops",
 }
 ASSUMPTIONS = [
-    'every assigned value is a fresh object, or (reinsert entries) an object stored earlier in the history that is '
+    'every assigned value is a fresh object, or the very object already stored under exactly that name in that map '
+    '(re-assignment in place), or (reinsert entries) an object stored earlier in the history that is '
     'stored nowhere when it is assigned again: displaced by a later assignment or dropped by clear(); an object is '
     'never stored at two places at once (outside the claim)',
     'layered handles are produced the way DirectoryResourcePopulator does it: handles.maps.insert(0, {}) on the '
